@@ -74,6 +74,14 @@ Definition by_value_error : err := EMustPointer.
    agree=<by value ~ by pointer><by pointer-to-pointer ~ by pointer> per operation; same=<arguments unchanged> per form *)
 Definition forms_demand (k : nat) : string := "agree=" ++ String.concat "." (repeat "11" k) ++ ";same=111".
 
+(* ---------- the demand on a grouped HISTORY of read operations ----------
+   "never modifies the value it reads": after every step of a history of reads every object the history touches is
+   as it was before the first step - whatever caller-owned buffers the steps share - so every step finds the values
+   a call alone finds and answers like that call alone, in each of the three forms.
+   k steps: alone=<by value><by pointer><by pointer-to-pointer> per step; same=<objects unchanged> per step and form *)
+Definition history_demand (k : nat) : string :=
+  "alone=" ++ String.concat "." (repeat "111" k) ++ ";same=" ++ String.concat "." (repeat "111" k).
+
 (* ---------- refusals as outcomes ----------
    [before]: the content of the method's output parameter (result buffer, *result, the calls made
    on the iterator so far, "no value") when the call starts. *)
